@@ -864,7 +864,7 @@ MANIFEST = dict(
         "TextGrid tier bounds. Necessary conditions of 'path or open file byte-identical', 'one worker or many the "
         "same list' and 'times recovered to within one frame shift'; round-trip equality of the trn/TextGrid "
         "grammars is a language-inclusion question that is not decided."
-        " By value: read(write(T)) for trn (nested alternates, timed tokens, empty transcript), ctm (channel string and waveform map) and TextGrid (interval / point tiers, precisions, fill tokens including the empty label) on fixed transcripts."),
+        " By value: read(write(T)) for trn (nested alternates, timed tokens, empty transcript), ctm (channel string and waveform map) and TextGrid (interval / point tiers, precisions, fill tokens including the empty label) on fixed transcripts. TextGrid round trips include entries with the empty label (interval and point tiers)."),
     level_note="Trusted: python ast; Pool.imap order preservation. Known finding F1a: write_textgrid's path entry point "
                "ignores point_tier (a stable baseline test encodes the dropped option).",
     technique="static analysis: forwarding completeness on re-dispatch sites, effect/order analysis of pool methods, unit-kind checking, writer/reader table agreement; write -> read round trips of trn, ctm and TextGrid by interpreting writers, readers and the vendored TextGrid parser over plain data (syntax tree only; re of the standard library is called)",
